@@ -57,8 +57,8 @@ def main():
             ok = bool(m and m.group(1) == "ok" and m.group(3) == "0")
             steps.append("cargo test -> %s" % (out.strip().split("\n")[0] if out.strip() else "no output"))
         if ok:
-            rc_mut, _ = sh("bash %s %s/target/debug/delta" % (demo, WT), cwd=d, timeout=600)
-            rc_orig, _ = sh("bash %s /repo/target/debug/delta" % demo, cwd=d, timeout=600)
+            rc_mut, _ = sh("setsid -w bash %s %s/target/debug/delta" % (demo, WT), cwd=d, timeout=600)
+            rc_orig, _ = sh("setsid -w bash %s /repo/target/debug/delta" % demo, cwd=d, timeout=600)
             steps.append("demo on the changed binary -> exit %d" % rc_mut)
             steps.append("demo on the unchanged binary -> exit %d" % rc_orig)
             ok = rc_mut != 0 and rc_orig == 0
